@@ -99,8 +99,9 @@ def translate_c_from_projectq(projectq_str):
     # Ignore Measure instructions
     projectq_str = re.sub(r'Measure(.*)\n', '', projectq_str)
 
-    # Ignore allocate and deallocate instructions.
+    # Ignore allocate and deallocate instructions, but remember the highest allocated qubit index.
     # Number of qubits is inferred by the abstract circuit, no (de)allocation will occur mid-circuit.
+    allocated_indices = [int(index) for index in re.findall(r'Allocate \| Qureg\[(\d+)\]', projectq_str)]
     projectq_str = re.sub(r'(.*)llocate(.*)\n', '', projectq_str)
     projectq_gates = [instruction for instruction in projectq_str.split("\n") if instruction]
 
@@ -123,6 +124,10 @@ def translate_c_from_projectq(projectq_str):
         else:
             raise ValueError(f"Gate '{gate_name}' not supported with project2abs translation")
         abs_circ.add_gate(gate)
+
+    # Qubits that were allocated but not acted upon still count towards the width of the circuit
+    if allocated_indices and max(allocated_indices) + 1 > abs_circ.width:
+        abs_circ = Circuit(abs_circ._gates, n_qubits=max(allocated_indices) + 1)
 
     return abs_circ
 
